@@ -17,6 +17,8 @@ pub enum Op {
     /// add a piece of this length (content derived from a counter)
     Add(u8),
     Empty,
+    /// add this many pieces of 1..3 bytes in a row (bulk; stops silently when the buffer is full)
+    AddMany(u16),
 }
 
 #[derive(Clone, Debug, Serialize, Deserialize)]
@@ -134,6 +136,23 @@ fn judge_inner(path: &Path, file: File, bytes: &[u8], c: &Case, obs: &mut Obs) -
                     adds_since_empty += 1;
                 }
             }
+            Op::AddMany(k) => {
+                obs.class("bulk-add");
+                for i in 0..*k {
+                    if model.len() >= size {
+                        break;
+                    }
+                    counter += 1;
+                    let p = piece(counter, 1 + (i as usize % 3));
+                    match no_panic(|| w.add(p.clone())) {
+                        Ok(Ok(())) => {}
+                        Ok(Err(e)) => viol!("add-contract", "add failed at step {} with {} of {} pieces buffered: {}", step, model.len(), size, e),
+                        Err(m) => viol!("window-panic", "add panicked at step {}: {}", step, m),
+                    }
+                    model.push_back(p);
+                    adds_since_empty += 1;
+                }
+            }
             Op::Empty => {
                 if !c.writer {
                     continue; // callers never empty a read-only window
@@ -198,6 +217,7 @@ fn op_strategy(writer: bool, size: u16) -> BoxedStrategy<Op> {
             5 => (0u8..10).prop_map(Op::Add),
             2 => k.prop_map(Op::Remove),
             3 => Just(Op::Empty),
+            1 => prop_oneof![1u16..40, 1000u16..1100, 1u16..3000].prop_map(Op::AddMany),
         ]
         .boxed()
     } else {
@@ -211,16 +231,18 @@ fn op_strategy(writer: bool, size: u16) -> BoxedStrategy<Op> {
 }
 
 pub fn strategy() -> BoxedStrategy<Case> {
-    (any::<bool>(), prop_oneof![8 => 0u16..=6, 1 => Just(65535u16)], 1usize..=9)
+    (any::<bool>(), prop_oneof![16 => 0u16..=6, 2 => Just(65535u16), 1 => prop::sample::select(vec![255u16, 256, 1023, 1024, 1025, 1500, 4096])], 1usize..=9)
         .prop_flat_map(|(writer, size, chunk)| {
-            let maxlen = (size.min(8) as usize + 2) * chunk + 1;
+            // big windows get big files now and then, so that one fill reads hundreds of pieces
+            let span = if size > 6 && size < 65535 { size as usize } else { size.min(8) as usize };
+            let maxlen = (span + 2) * chunk + 1;
             (
                 Just(writer),
                 Just(size),
                 Just(chunk),
                 prop_oneof![
                     3 => 0..=maxlen,
-                    2 => (0..=(size.min(8) as usize + 2)).prop_map(move |k| k * chunk),
+                    2 => (0..=(span + 2)).prop_map(move |k| k * chunk),
                 ],
                 proptest::collection::vec(op_strategy(writer, size), 0..40),
             )
